@@ -497,6 +497,77 @@ def run_spend(case):
     return res
 
 
+# ------------------------------------------------------------------ signature-free scriptSigs, exhaustively
+# alphabet of the scriptSig items; "R" = the element whose hash the spent script commits to (redeem script, witness
+# program, public key), "S" = the multisig/witness script where one exists
+SF_FULL = ["R", b"", b"\x01", 0x51, 0x61, 0x76, 0x75, 0x63, 0x64, 0x67, 0x68, 0x6A, 0x69, 0x74, 0x87, 0xA9, 0x6B, 0x6C, 0x6D, 0xB1, 0xAC, 0xAE, 0x7C, 0x73, 0x82, 0x91, "S"]
+SF_CORE = ["R", b"", b"\x01", 0x51, 0x61, 0x76, 0x75, 0x63, 0x68, 0x67, 0x87, 0xA9, 0x74]
+SF_TYPES = [("p2pkh", 1, 1, 0), ("p2sh", 1, 2, 1), ("p2sh", 2, 3, 1), ("p2sh-p2wpkh", 1, 1, 1), ("p2sh-p2wsh", 2, 3, 1), ("p2wpkh", 1, 1, 0), ("p2wsh", 1, 2, 1), ("p2tr-key", 1, 1, 0)]
+
+
+def sf_name(x):
+    return x if isinstance(x, str) else (("push" + x.hex()) if x else "OP_0") if isinstance(x, bytes) else "op%02x" % x
+
+
+def gen_sigfree(tier, seed):
+    full_len, core_len = (2, 3) if tier == "quick" else (3, 4)
+    cases = []
+    for spec in SF_TYPES:
+        seqs = set()
+        for L in range(1, full_len + 1):
+            seqs.update(itertools.product(range(len(SF_FULL)), repeat=L))
+        core_idx = [SF_FULL.index(x) for x in SF_CORE]
+        for L in range(full_len + 1, core_len + 1):
+            seqs.update(itertools.product(core_idx, repeat=L))
+        seqs = sorted(seqs, key=lambda q: (len(q), q))
+        for i in range(0, len(seqs), 64):
+            cases.append({"spec": list(spec), "seqs": [list(q) for q in seqs[i : i + 64]]})
+    return cases
+
+
+def run_sigfree(case):
+    import copy
+
+    res = Res()
+    spec = tuple(case["spec"])
+    tx0, spent0, idx, info = build_base(spec)
+    typ = spec[0]
+    R = info.get("redeem") or info.get("script") or C.sec(C.mulg(key(0)))
+    S = info.get("script") or R
+    wit0 = tx0["ins"][idx].get("witness", [])
+    for q in case["seqs"]:
+        items = [R if SF_FULL[j] == "R" else S if SF_FULL[j] == "S" else SF_FULL[j] for j in q]
+        name = " ".join(sf_name(SF_FULL[j]) for j in q)
+        for keep_witness in ([False, True] if wit0 else [False]):
+            tx = copy.deepcopy(tx0)
+            tx["ins"][idx]["script"] = txref.script_from_items(items)
+            if not keep_witness:
+                tx["ins"][idx]["witness"] = []
+            tx["segwit"] = any(i.get("witness") for i in tx["ins"])
+            try:
+                ref_ok = interp.verify_input(tx, idx, spent0, relaxed=True)
+            except interp.OutOfStatement as e:
+                # over-long numeric operands are a script error under consensus (the reference only refuses to
+                # compare stack contents there); anything else outside the opcode set is skipped
+                if "numeric operand" not in str(e):
+                    res.skip("outside the library's opcode set")
+                    continue
+                ref_ok = False
+            if not keep_witness:
+                assert not ref_ok, ("reference accepts a signature-free spend", typ, name)
+            lib_ok = lib_verify(tx, spent0, idx)
+            vc = {"engine": "sigfree", "case": {"spec": list(spec), "seqs": [list(q)]}}
+            if lib_ok and not ref_ok:
+                cls = "no-signature-anywhere" if not keep_witness else "scriptsig-consensus-rejects"
+                shape = "+".join(sorted(set("R" if SF_FULL[j] == "R" else "S" if SF_FULL[j] == "S" else "push" if isinstance(SF_FULL[j], bytes) else "opcode" for j in q)))
+                res.violation(f"C06/sigfree/{typ}/{cls}/{shape}", vc, True, False, f"{typ}: scriptSig [{name}] ({'witness kept' if keep_witness else 'no witness'}) verifies although it carries no authorisation consensus accepts")
+            elif not ref_ok:
+                res.ok("signature-free scriptSig rejected", nontrivial=(typ, tuple(q), keep_witness), sample=vc["case"] if len(q) == 2 else None)
+            else:
+                res.ok("scriptSig junk beside an intact witness: consensus-authorised or library stricter")
+    return res
+
+
 # ------------------------------------------------------------------ toy instance: CHECKMULTISIG exhaustively
 def toy_nonce(c, d, z, salt=0):
     """deterministic nonce with r != 0 and s != 0 on the toy curve"""
@@ -607,5 +678,13 @@ def engines(tier, seed):
             kind="E1",
             chunk=12,
             rule="bases: P2PKH (compressed, uncompressed), P2WPKH, P2SH-P2WPKH, P2SH / P2WSH / P2SH-P2WSH / tapscript multisig for (m,n) in {1of1,1of2,2of2,2of3} (thorough: all 1<=m<=n<=5), P2TR key path (both internal-key parities, with/without tree), P2TR P2PK leaf — each built and signed through the library; level 0 must verify under library and reference; level 1 = every applicable single mutation of a ~75-entry wire-level catalogue (signatures dropped/emptied/foreign/flipped/reordered/duplicated/re-hash-typed, pubkey/script/control-block changes, committed tx fields, witness shapes, signature-free scriptSigs), thorough adds all pairs for three wallets; oracle: library True => reference consensus verifier valid; non-trivial = mutated spend the reference rejects",
-        )
+        ),
+        Engine(
+            "sigfree",
+            gen_sigfree,
+            run_sigfree,
+            kind="E1",
+            chunk=4,
+            rule="for 8 signed bases (P2PKH, P2SH 1of2/2of3, P2SH-P2WPKH, P2SH-P2WSH, P2WPKH, P2WSH, P2TR key path) the scriptSig is replaced by EVERY sequence over a 27-item alphabet (redeem script / witness program / public key push, multisig script push, OP_0, push 01, OP_1, NOP, DUP, DROP, IF, NOTIF, ELSE, ENDIF, RETURN, VERIFY, DEPTH, EQUAL, HASH160, TOALTSTACK, FROMALTSTACK, 2DROP, CLTV, CHECKSIG, CHECKMULTISIG, SWAP, IFDUP, SIZE, NOT) up to length 2 (thorough 3) and over a 13-item core up to length 3 (thorough 4), with the witness emptied and with it kept; oracle: library True => reference verifier (scriptSig and scriptPubKey evaluated separately, BIP16 push-only) valid; with the witness emptied the reference itself must reject every sequence",
+        ),
     ]
